@@ -584,12 +584,12 @@ theorem sim (defs : Defs) (rc : List TokenKind) :
         simp only [Option.some.injEq] at h; subst h
         have h0 : hasTop a.cps = false := by simpa using h0
         exact ⟨{ s with cps := (s.b.parents.length, s.b.cur.length) :: s.cps }, by simp only [exec],
-          ⟨⟨habs.inv.text, habs.inv.pos, habs.inv.eof, habs.inv.err, habs.inv.errs, habs.inv.ne, habs.inv.capOk⟩,
+          ⟨⟨habs.inv.text, habs.inv.pos, habs.inv.eof, habs.inv.err, habs.inv.errs, habs.inv.ne, habs.inv.capOk, habs.inv.chain⟩,
             habs.ks, habs.flag, habs.locals, habs.norm, habs.b, habs.cp.push habs.b h0 a.cur habs.fr.top.1, habs.fr⟩, rfl⟩
     | popCp =>
       simp only [aexec, Option.some.injEq] at h; subst h
       exact ⟨{ s with cps := s.cps.tail }, by simp only [exec],
-        ⟨⟨habs.inv.text, habs.inv.pos, habs.inv.eof, habs.inv.err, habs.inv.errs, habs.inv.ne, habs.inv.capOk⟩,
+        ⟨⟨habs.inv.text, habs.inv.pos, habs.inv.eof, habs.inv.err, habs.inv.errs, habs.inv.ne, habs.inv.capOk, habs.inv.chain⟩,
           habs.ks, habs.flag, habs.locals, habs.norm, habs.b, habs.cp.tail, habs.fr⟩, rfl⟩
     | startNodeAtCp k =>
       simp only [aexec] at h
@@ -719,15 +719,15 @@ theorem sim (defs : Defs) (rc : List TokenKind) :
     | pushLocal =>
       simp only [aexec, Option.some.injEq] at h; subst h
       exact ⟨{ s with locals := false :: s.locals }, by simp only [exec], ⟨⟨habs.inv.text, habs.inv.pos, habs.inv.eof, habs.inv.err, habs.inv.errs,
-        habs.inv.ne, habs.inv.capOk⟩, habs.ks, habs.flag, by simp [habs.locals], habs.norm, habs.b, habs.cp, habs.fr⟩, rfl⟩
+        habs.inv.ne, habs.inv.capOk, habs.inv.chain⟩, habs.ks, habs.flag, by simp [habs.locals], habs.norm, habs.b, habs.cp, habs.fr⟩, rfl⟩
     | popLocal =>
       simp only [aexec, Option.some.injEq] at h; subst h
       exact ⟨{ s with locals := s.locals.tail }, by simp only [exec], ⟨⟨habs.inv.text, habs.inv.pos, habs.inv.eof, habs.inv.err, habs.inv.errs,
-        habs.inv.ne, habs.inv.capOk⟩, habs.ks, habs.flag, by simp [habs.locals], habs.norm, habs.b, habs.cp, habs.fr⟩, rfl⟩
+        habs.inv.ne, habs.inv.capOk, habs.inv.chain⟩, habs.ks, habs.flag, by simp [habs.locals], habs.norm, habs.b, habs.cp, habs.fr⟩, rfl⟩
     | setLocal =>
       simp only [aexec, Option.some.injEq] at h; subst h
       exact ⟨{ s with locals := true :: s.locals.tail }, by simp only [exec], ⟨⟨habs.inv.text, habs.inv.pos, habs.inv.eof, habs.inv.err, habs.inv.errs,
-        habs.inv.ne, habs.inv.capOk⟩, habs.ks, habs.flag, by simp [habs.locals], habs.norm, habs.b, habs.cp, habs.fr⟩, rfl⟩
+        habs.inv.ne, habs.inv.capOk, habs.inv.chain⟩, habs.ks, habs.flag, by simp [habs.locals], habs.norm, habs.b, habs.cp, habs.fr⟩, rfl⟩
     | ifLocal t e =>
       simp only [aexec] at h
       split at h
